@@ -35,7 +35,7 @@ def r1(cx):
         hw = header_writes(b)
         if not hw:
             continue
-        wh = [c for c in b.calls if c.bb in b.live and f.call_may_reach(c, {"BPlusTree::write_header"})]
+        wh = [c for c in b.calls if c.bb in b.live and f.call_must_reach(c, {"BPlusTree::write_header"})]
         oks = [x for x, k in exits(b) if k in ("ok", "tail")] or b.rets
         for i, fld, line in hw:
             n += 1
